@@ -2,6 +2,7 @@ import Proofs.Machine.HunkHeaders
 import Proofs.Machine.FileHeaders
 import Proofs.Machine.FileHeaders5
 import Proofs.Machine.MiscSource
+import Proofs.Machine.SubmoduleLogSource
 import Proofs.Headers.Paths
 import Proofs.Headers.HunkHeader
 /-!
@@ -314,26 +315,27 @@ list of sections of the kinds git produces (`Sec2`, `Sec2.WF`; decidable form `S
     or a single `Subproject commit` line for an added or removed submodule (`Body.submodule1`);
   - nothing (`Body.bare`: mode-only change, empty added or deleted file);
   - a `Binary files … differ` line (`Body.binary`; the `diff --git` line must repeat one path, or the file be added / deleted);
-* a submodule log: a `Submodule <path> <old>..<new>:` line and its log lines (`Sec2.log`), not directly after a
-  `bare` / `binary` section (`logOrder`) —
+* a submodule log: a `Submodule <path> <old>..<new>:` line and its log lines (`Sec2.log`), anywhere — also directly
+  after a `bare` / `binary` section (excluded by hypothesis until `handle_submodule_log_line` was repaired to write the
+  pending header first; see `late_header_written_before_submodule_log` below) —
 the file-header rows of delta's output are, in order, exactly one per section (`rowsOf2`):
 for a section that names its files the row written at the line naming the new file (description of the two names
 and the event, the mode change in parentheses: `headerRowA`); for a `bare` / `binary` section the row written *late*
-— its input index is that of the next section's first line, or the number of input lines at the end of input — that
-shows, with a mode change, the name of the `diff --git` line and the mode change, otherwise the description of
+— its input index is that of the next section's first line (a `diff --git` line or a `Submodule …:` line), or the number
+of input lines at the end of input — that shows, with a mode change, the name of the `diff --git` line and the mode change, otherwise the description of
 (name, name), (`/dev/null`, name) after `new file mode`, (name, `/dev/null`) after `deleted file mode`, with
 ` (binary file)` appended to the names of a binary file (`lateText`, `lateNames`, `binNames`); for a submodule log the
 `Submodule …:` line itself. No section gets two headers, none is skipped, none is out of order. -/
 theorem one_file_header_per_section_any {cfg : Cfg} (hc : FHC cfg) (secs : List Sec2) (w : ∀ s ∈ secs, s.WF)
-    (ho : logOrder false secs = true) {m : M} (e : run cfg (linesOf2 secs) = .ok m) :
+    {m : M} (e : run cfg (linesOf2 secs) = .ok m) :
     m.out.filter (fun r => r.kind == .file) = rowsOf2 cfg 0 secs :=
-  run_one_file_row_per_section2 hc secs w ho e
+  run_one_file_row_per_section2 hc secs w e
 
 /-- … in particular: as many file-header rows as sections -/
 theorem file_header_count_any {cfg : Cfg} (hc : FHC cfg) (secs : List Sec2) (w : ∀ s ∈ secs, s.WF)
-    (ho : logOrder false secs = true) {m : M} (e : run cfg (linesOf2 secs) = .ok m) :
+    {m : M} (e : run cfg (linesOf2 secs) = .ok m) :
     (m.out.filter (fun r => r.kind == .file)).length = secs.length := by
-  rw [one_file_header_per_section_any hc secs w ho e, rowsOf2_length]
+  rw [one_file_header_per_section_any hc secs w e, rowsOf2_length]
 
 /-- a `Subproject commit` line with the hash the implementation's regex captures -/
 def mkS (s : String) (c : String) : L := { mkL s with submodule := some c.toList }
@@ -380,7 +382,6 @@ def sDeletedBinary : Sec2 := .file {
 /-- a mode-only section followed by a modified file: the header of the first is written when the second
 `diff --git` line (input line 3) arrives, with the mode change; the hypotheses hold; the model computes it -/
 example : ∀ s ∈ [sModeOnly, sModified], s.WF := wf_of_all (by decide)
-example : logOrder false [sModeOnly, sModified] = true := by decide
 example : rowsOf2 {} 0 [sModeOnly, sModified] =
     [{ kind := .file, text := "run.sh (mode +x)".toList, src := 3 }, { kind := .file, text := "y".toList, src := 6 }] := by
   decide
@@ -412,7 +413,6 @@ form), submodule log, renamed binary file, deleted binary file, binary file -/
 def mixture : List Sec2 :=
   [sModeAndHunks, sRenamedMode, sSubShort, sSubAdded, sSubRemoved, sSubLog, sRenamedBinary, sDeletedBinary, sBinary]
 example : ∀ s ∈ mixture, s.WF := wf_of_all (by decide)
-example : logOrder false mixture = true := by decide
 example : (rowsOf2 {} 0 mixture).map (fun r => (String.ofList r.text, r.src)) =
     [("x (mode +x)", 5), ("renamed: o ⟶   n (mode -x)", 14), ("sub", 18), ("added: new-sub", 26),
      ("removed: old-sub", 33), ("Submodule sub 1111111..2222222:", 36), ("renamed: o.png ⟶   n.png", 42),
@@ -424,25 +424,44 @@ example : (match run {} (linesOf2 mixture) with
 /-- the sections of `one_file_header_per_section` are sections of the new theorem, with the same rows -/
 example : rowsOf2 {} 0 [secC.toSec2, secA.toSec2, secB.toSec2] = rowsOf {} 0 [secC, secA, secB] := by decide
 
-/-- **DEFECT** (the hypothesis `logOrder` is needed). A section whose header is written late (here: mode change only)
-directly followed by a submodule log (`git diff --submodule=log`): `handle_submodule_log_line` does not write the
-pending header. The mode change `(mode +x)` of `run.sh` is shown on the *submodule's* header (input line 3), and the
-header of `run.sh` appears after the submodule section (written at input line 6, the next `diff --git` line),
-without its mode change. -/
-theorem late_header_misplaced_before_submodule_log :
+/-- **Repaired defect** (was `late_header_misplaced_before_submodule_log`; until the repair the theorem above needed
+the hypothesis "no submodule log directly after a section whose header is written late"). A section whose header is
+written late (here: mode change only) directly followed by a submodule log (`git diff --submodule=log`):
+`handle_submodule_log_line` now calls `handle_pending_line_with_diff_name` first, so the header of `run.sh` is written
+when the `Submodule …:` line (input line 3) arrives, with its mode change, before the submodule's own header.
+Before the repair the model and the binary gave `Submodule sub 1111111..2222222: (mode +x)`@3, `run.sh`@6, `y`@9. -/
+theorem late_header_written_before_submodule_log :
     (match run {} (linesOf2 [sModeOnly, sSubLog, sModified]) with
      | .ok m => (m.out.filter (fun r => r.kind == .file)).map (fun r => (String.ofList r.text, r.src))
      | .error _ => []) =
-      [("Submodule sub 1111111..2222222: (mode +x)", 3), ("run.sh", 6), ("y", 9)] := by decide
+      [("run.sh (mode +x)", 3), ("Submodule sub 1111111..2222222:", 3), ("y", 9)] := by decide
 
-/-- … and when the submodule log is the last section the pending header (here of an empty added file) is never
-written: the tail of `consume` finds the machine in the submodule state -/
-theorem late_header_lost_before_final_submodule_log :
+/-- … and when the submodule log is the last section the pending header (here of an empty added file) is written as
+well, first (was `late_header_lost_before_final_submodule_log`: only the `Submodule …:` header was written) -/
+theorem late_header_written_before_final_submodule_log :
     (match run {} (linesOf2 [sEmptyNew, sSubLog]) with
      | .ok m => (m.out.filter (fun r => r.kind == .file)).map (fun r => (String.ofList r.text, r.src))
-     | .error _ => []) = [("Submodule sub 1111111..2222222:", 3)] := by decide
+     | .error _ => []) = [("added: e.txt", 3), ("Submodule sub 1111111..2222222:", 3)] := by decide
 
-example : logOrder false [sModeOnly, sSubLog, sModified] = false := by decide
+/-- both inputs are instances of `one_file_header_per_section_any`, and `rowsOf2` says the same -/
+example : ∀ s ∈ [sModeOnly, sSubLog, sModified], s.WF := wf_of_all (by decide)
+example : ∀ s ∈ [sEmptyNew, sSubLog], s.WF := wf_of_all (by decide)
+example : (rowsOf2 {} 0 [sModeOnly, sSubLog, sModified]).map (fun r => (String.ofList r.text, r.src)) =
+    [("run.sh (mode +x)", 3), ("Submodule sub 1111111..2222222:", 3), ("y", 9)] := by decide
+example : (rowsOf2 {} 0 [sEmptyNew, sSubLog]).map (fun r => (String.ofList r.text, r.src)) =
+    [("added: e.txt", 3), ("Submodule sub 1111111..2222222:", 3)] := by decide
+
+/-- every kind of late section before a log, a log first, two logs in a row, a log last -/
+def lateBeforeLog : List Sec2 := [sSubLog, sBinary, sSubLog, sSubLog, sDeletedBinary, sSubLog, sModeOnly, sSubLog]
+example : ∀ s ∈ lateBeforeLog, s.WF := wf_of_all (by decide)
+example : (rowsOf2 {} 0 lateBeforeLog).map (fun r => (String.ofList r.text, r.src)) =
+    [("Submodule sub 1111111..2222222:", 0), ("img.png (binary file)", 6), ("Submodule sub 1111111..2222222:", 6),
+     ("Submodule sub 1111111..2222222:", 9), ("removed: old.bin (binary file)", 16),
+     ("Submodule sub 1111111..2222222:", 16), ("run.sh (mode +x)", 22), ("Submodule sub 1111111..2222222:", 22)] := by
+  decide
+example : (match run {} (linesOf2 lateBeforeLog) with
+    | .ok m => m.out.filter (fun r => r.kind == .file) == rowsOf2 {} 0 lateBeforeLog
+    | .error _ => false) = true := by decide +kernel
 
 /-- the hypothesis on `Body.binary` is needed: when the `diff --git` line names two different paths (and the file is
 neither added nor deleted) delta has no name for a header and passes the `Binary files` line through instead -/
@@ -549,6 +568,52 @@ example : (match run {} (linesOf2 [sCopiedBinaryChanged, sBinary, sRenamedBinary
     | .ok m => (m.out.filter (fun r => r.kind == .file)).map (fun r => (String.ofList r.text, r.src)) ==
         [("copied: a.bin ⟶   b.bin", 3), ("img.png (binary file)", 9), ("renamed: img/logo old.png ⟶   img/logo new.png", 12)] &&
       m.out.filter (fun r => r.kind == .file) == rowsOf2 {} 0 [sCopiedBinaryChanged, sBinary, sRenamedBinaryChanged]
+    | .error _ => false) = true := by decide
+
+-- the handler of `Submodule …` lines (diff.submodule=log), executed from its source --------------------------
+
+/-- **`submodule_log_handler_follows_source`**. `handle_submodule_log_line` as the Rust source has it — the statement
+list `Generated.SubmoduleLog.body` (the guard on `test_submodule_log`, `paint_buffered_minus_and_plus_lines()`,
+`handle_pending_line_with_diff_name()?`, the tail call `handle_additional_cases(State::SubmoduleLog)`, in source order)
+with the literal `testPrefix` of the test, regenerated by `tools/extractors/submodulelog.py` and run by the interpreter
+`SubmoduleLogSrc.exec` (DeltaModel/SubmoduleLogSrc.lean) — computes, for every configuration, every state and every line,
+exactly `Machine.handleSubmoduleLog`: the function the model driver executes and `one_file_header_per_section_any` is
+about. Dropping or moving the two calls that write the file header still owed to the section before the log (the repair
+of the defect "late header after / lost before a submodule log") changes the generated list and this theorem no longer
+builds. -/
+theorem submodule_log_handler_follows_source (cfg : Cfg) (m : M) (l : L) :
+    SubmoduleLogSrc.handleSubmoduleLogSrc cfg m l = some (handleSubmoduleLog cfg m l) :=
+  SubmoduleLogSrc.handleSubmoduleLogSrc_eq cfg m l
+
+/-- … and what the source does at a `Submodule …` line: buffered lines painted, the pending file header written (by
+`handle_pending_line_with_diff_name`, in the state the line is met in), then `handle_additional_cases` -/
+theorem submodule_log_line_writes_pending_header_first (cfg : Cfg) (m : M) (l : L)
+    (h : startsWith l.text Markers.submoduleLog = true) :
+    SubmoduleLogSrc.handleSubmoduleLogSrc cfg m l =
+      some (handleAdditionalCases cfg (pendingDiffName cfg (flushMP m)) l .submoduleLog) :=
+  SubmoduleLogSrc.submodule_log_line_writes_pending_header_first cfg m l h
+
+/-- the state in which the `Submodule …:` line of the repaired defect arrives (mode-only section: header owed), what the
+source makes of the line — two file rows, the owed header first — and what the function *without* the two calls (the
+list the extractor produced before the repair) made of it: one row, the mode change on the wrong header -/
+def modeOnlyHead : List L := ["diff --git a/run.sh b/run.sh", "old mode 100644", "new mode 100755"].map mkL
+def subLogLine : L := mkL "Submodule sub 1111111..2222222:"
+def fileTexts (r : Option (Except String (Bool × M))) : List String :=
+  match r with
+  | some (.ok (_, m)) => (m.out.filter (fun r => r.kind == .file)).map (fun r => String.ofList r.text)
+  | _ => []
+example : (match runFrom {} {} modeOnlyHead with
+    | .ok m =>
+      startsWith subLogLine.text Markers.submoduleLog && m.modeInfo == "mode +x".toList &&
+      fileTexts (SubmoduleLogSrc.handleSubmoduleLogSrc {} m subLogLine) ==
+        ["run.sh (mode +x)", "Submodule sub 1111111..2222222:"] &&
+      fileTexts (SubmoduleLogSrc.exec {} subLogLine
+          [.declineUnless "test_submodule_log", .tailAdditionalCases "SubmoduleLog"] m) ==
+        ["Submodule sub 1111111..2222222: (mode +x)"] &&
+      -- statements the interpreter has no meaning for give no result at all
+      (SubmoduleLogSrc.exec {} subLogLine [.declineUnless "test_submodule_log", .unknown "self.x();",
+          .tailAdditionalCases "SubmoduleLog"] m).isNone &&
+      (SubmoduleLogSrc.exec {} subLogLine [.declineUnless "test_submodule_log", .paintBuffered, .pendingDiffName] m).isNone
     | .error _ => false) = true := by decide
 
 end C14
